@@ -91,7 +91,7 @@ def run_drivers(prop, drivers, tier, seed, scratch, only_cases=None):
         for i, job in enumerate(js):
             tasks.append((drv, job, scratch, len(tasks)))
     ctx = mp.get_context("fork")
-    with ctx.Pool(min(16, max(1, len(tasks)))) as pool:
+    with ctx.Pool(min(16, max(1, len(tasks))), maxtasksperchild=1) as pool:      # every job in a fresh child: no state leaks between jobs
         results = pool.map(_exec_job, tasks, chunksize=1)
     files, ncases, nontriv, samples = [], 0, set(), []
     for r in results:
